@@ -34,10 +34,10 @@ RULE = {
            "sequences of (form, which fields equal library/class defaults, label/issuer character classes, hostile kind)",
 }
 FAULT_KINDS = {
-    "C13": ["device_clock_step", "device_skew"],
+    "C13": ["device_clock_step", "device_skew", "key_rotation"],
     "C14": ["server_clock_step", "device_clock_step", "device_skew", "net_delay", "net_dup", "net_drop", "net_reorder",
             "attack_replay", "attack_neighbour", "attack_corrupt", "attack_wrong_length", "server_restart"],
-    "C15": ["server_restart", "corrupt_source"],
+    "C15": ["server_restart", "corrupt_source", "key_rotation"],
 }
 COMPONENTS = {
     "real": ["passlib.totp.TOTP (generate, match, normalize_*, to_uri/from_uri, to_json/from_json, to_dict/from_dict, using)",
@@ -145,11 +145,11 @@ def generate(rng, prop, tier):
     nops = rng.randint(8, 60 if tier == "quick" else 120)
     weights = {"emit": 10, "advance": 8, "attack": 4 if faults_on else 0, "match_params": 2,
                "clock_step": 2 if faults_on else 0, "restart": 1.5 if faults_on else 0.3,
-               "provision": 2, "hostile": 1}
+               "provision": 2, "hostile": 1, "rekey": 0.7}
     if prop == "C13":
         weights.update(emit=16, attack=1 if faults_on else 0, hostile=0, provision=3)
     if prop == "C15":
-        weights.update(provision=10, hostile=6, restart=4, emit=4, attack=0.5 if faults_on else 0)
+        weights.update(provision=10, hostile=6, restart=4, emit=4, attack=0.5 if faults_on else 0, rekey=2)
     kinds = sorted(weights)
     wl = [weights[k] for k in kinds]
     for a in range(n_acct):
@@ -203,6 +203,11 @@ def generate(rng, prop, tier):
         elif k == "hostile":
             ops.append({"op": "hostile", "acct": rng.randrange(n_acct),
                         "kind": rng.choice(HOSTILE_KINDS), "arg": rng.randint(0, 50)})
+        elif k == "rekey":
+            # the secret of an account is rotated on the LIVE server object (TOTP.key is assignable), after the object has
+            # generated / matched / been serialised -- everything it answers afterwards follows the new secret
+            ops.append({"op": "rekey", "acct": rng.randrange(n_acct), "key": bytes(rng.getrandbits(8) for _ in range(rng.choice([10, 16, 20, 32]))).hex(),
+                        "form": rng.choice(["uri", "json", "dict"]), "factory": rng.choice(["stock", "same"])})
     # colliding codes (C14, "earliest first"): two counters inside the window that produce the same code
     if prop == "C14" and rng.random() < 0.25:
         for _ in range(rng.randint(1, 2)):
@@ -748,6 +753,45 @@ class _World:
         if op["dev"] < len(self.devices):
             self.devices[op["dev"]]["clock"].off = self.server_clock.off
 
+    def rekey(self, op):
+        """history on one object: the live server object gets a new secret; codes, serialised forms and matching follow it"""
+        ctx = self.ctx
+        ai = op["acct"]
+        if ai >= len(self.accounts):
+            return
+        acct = self.accounts[ai]
+        a = acct["cfg"]
+        obj = acct["totp"]
+        new = bytes.fromhex(op["key"])
+        ctx.fault("key_rotation")
+        self.faults_seen = True  # codes in flight belong to the old secret: no liveness claim for this run any more
+        with warnings.catch_warnings():
+            warnings.simplefilter("ignore")
+            # whatever the object caches per key exists by now
+            obj.generate(int(self.T))
+            self._serialise(obj, "dict")
+            try:
+                obj.key = new
+            except Exception as e:
+                ctx.fail("C13", "key-assignment-raises", f"{type(e).__name__}: {e}", exc=type(e).__name__)
+            acct["key"] = new
+            acct["last_counter"] = None
+            acct["accepted"] = []
+            ctx.check(obj.key == new, "C13", "key-spelling-differs", f"after assignment .key is {obj.key.hex()} not {new.hex()}", form="rekey")
+            for t in (0, int(self.T), int(self.T) + 5 * a["period"] + 1):
+                got = obj.generate(t).token
+                want = ref_hotp(new, t // obj.period, obj.alg, obj.digits)
+                ctx.check(got == want, "C13", "token-differs-from-rfc",
+                          lambda: f"after key rotation on the live object: t={t} got {got!r} want {want!r} (alg={obj.alg} digits={obj.digits} period={obj.period})",
+                          tform="rekey")
+            acct["durable"] = self._serialise(obj, a["durable_form"])
+        # the account's devices receive the new secret through a serialised form (C15 round trip of the re-keyed object)
+        for dev in self.devices:
+            if dev["cfg"]["acct"] == ai:
+                self._provision(dev, op["form"], "none", op["factory"], check=True)
+        if ctx.prop in ("C13", "C15"):
+            ctx.nontrivial = True
+
     def restart(self, op):
         ctx = self.ctx
         ai = op["acct"]
@@ -992,6 +1036,8 @@ def execute(program, ctx):
                 w._provision(w.devices[op["dev"]], op["form"], op["deco"], op["factory"], check=True)
         elif k == "hostile":
             w.hostile(op)
+        elif k == "rekey":
+            w.rekey(op)
         elif k == "sweep":
             _sweep(w, op)
         elif k == "collide":
